@@ -1,9 +1,9 @@
 (* C02 property theorems: statements only, each closed by `exact`, Print Assumptions beneath.
    The verified checkers evaluated by harness/c02.py on the converter's real protos are
    wf_graphb / no_input_returned / imports_ok (Graph/Wf.v); these theorems say what a `true` means. *)
-From Coq Require Import List String Bool.
+From Coq Require Import List String Bool ZArith.
 Require Import OV.Graph.Syntax OV.Graph.Wf OV.Graph.WfProofs.
-Require Import OV.Script.Translate OV.Script.TranslateProofs.
+Require Import OV.Script.Syntax OV.Script.Translate OV.Script.TranslateProofs OV.Script.TranslateExamples OV.Script.TranslateWfProofs.
 Import ListNotations.
 
 (* checker soundness: a proto on which the checker answers true is well formed in the declarative sense
@@ -55,3 +55,50 @@ Theorem C02_generated_names_fresh : forall cand st r st',
   /\ ts_castable st' = ts_castable st /\ ts_orders st' = ts_orders st.
 Proof. exact gen_unique_fresh. Qed.
 Print Assumptions C02_generated_names_fresh.
+
+(* ---- the converter model (Script/Translate.v, tied to converter.py by the skeleton correspondence of harness/c01.py and
+   harness/c02.py) emits well-formed graphs.
+
+   Full statement, for every program of Script.Syntax (if / for / while nested, attribute parameters, sub-function calls):
+   whatever the converter model accepts, the graph passes the verified checker (single assignment across all nested
+   subgraphs, definition before use with scoping, subgraph outputs produced inside, outputs distinct) and returns no
+   graph input directly.  Distinct parameter names are a precondition Python itself enforces (SyntaxError). *)
+Definition C02_translate_wf_full : Prop :=
+  forall globals cic afuel orders f g,
+    NoDup (f_tparams f) ->
+    translate false globals cic afuel orders f = Some g ->
+    wf_graphb g = true /\ no_input_returned g = true.
+
+(* Proved part: stage S1, straight-line bodies (the syntactic class of C01_graph_eq_python_straightline_partial, attribute
+   parameters allowed): assignments and tuple assignments of arbitrary expressions (literals with their static CastLike,
+   attribute parameters promoted through Constant (+Cast), module constants, operator and sub-function calls) followed by one
+   return of several values with the Identity copies for returned inputs and duplicates.  From the freshness invariant of
+   _generate_unique_name (C02_generated_names_fresh).
+   Missing: SIf / SFor / SWhile, i.e. the nested graphs (subgraph outputs produced inside, no redefinition of an outer name,
+   loop-state naming): for those the evidence is wf_graphb evaluated in Coq on the real protos of every generated program. *)
+Theorem C02_translate_wf_straightline_partial : forall globals cic afuel orders f g pre es,
+  f_body f = (pre ++ [SReturn es])%list -> assigns_ok pre = true -> forallb expr_ok es = true -> NoDup (f_tparams f) ->
+  translate false globals cic afuel orders f = Some g ->
+  wf_graphb g = true /\ no_input_returned g = true.
+Proof. exact translate_wf_straightline. Qed.
+Print Assumptions C02_translate_wf_straightline_partial.
+
+(* the hypotheses are satisfiable on non-trivial instances (11 and 10 nodes: literal operands with casts, a re-assigned
+   parameter, a parameter named like a generated name, tuple assignment, attribute parameters incl. a bool one, a module
+   constant, returned inputs and duplicate returns) *)
+Theorem C02_translate_wf_straightline_nonvacuous :
+  (exists g pre es, f_body ex_f = (pre ++ [SReturn es])%list /\ assigns_ok pre = true /\ forallb expr_ok es = true /\
+     NoDup (f_tparams ex_f) /\ translate false [] (fun _ => None) 5 [] ex_f = Some g /\ List.length (g_nodes g) = 11) /\
+  (exists g pre es, f_body ex_attr = (pre ++ [SReturn es])%list /\ assigns_ok pre = true /\ forallb expr_ok es = true /\
+     NoDup (f_tparams ex_attr) /\ translate false [("K"%string, LFloat 1065353216%Z)] (fun _ => None) 5 [] ex_attr = Some g /\
+     List.length (g_nodes g) = 10).
+Proof. exact translate_wf_nonvacuous. Qed.
+Print Assumptions C02_translate_wf_straightline_nonvacuous.
+
+(* without distinct parameter names the model's graph is not well formed (so the precondition is needed; `def f(x, x)` is a
+   SyntaxError in Python, the decorator never sees it) *)
+Theorem C02_translate_wf_needs_distinct_parameters :
+  exists f g, f_body f = ([] ++ [SReturn [EUn "USub"%string (EVar "x"%string)]])%list /\
+    translate false [] (fun _ => None) 5 [] f = Some g /\ wf_graphb g = false.
+Proof. exact translate_wf_needs_distinct_parameters. Qed.
+Print Assumptions C02_translate_wf_needs_distinct_parameters.
